@@ -234,6 +234,13 @@ def tasks(tier, seed):
         ts.append({"id": f"run[{cls}]", "fn": "run_task",
                    "args": {"cls_name": cls, "ctype": ct, "cone": "orthant2", "W": W, "N": N, "steps": steps, "batch": 1,
                             "prop": "C07", "tier": tier}, "weight": 100})
+    # three designs, one round: a design can be discarded while another stays undecided, so the sampling phase of the same
+    # round runs on a changed active set (with two designs a discard ends the run)
+    for cls, ct in (("VOGP", None), ("EpsilonPAL", None), ("PaVeBaGP", "hyperrectangle"), ("PaVeBa", None), ("Auer", None)):
+        W = None if cls == "Auer" else cs["orthant2"].tolist()
+        ts.append({"id": f"run[{cls},N=3]", "fn": "run_task",
+                   "args": {"cls_name": cls, "ctype": ct, "cone": "orthant2", "W": W, "N": 3, "steps": 2 if (cls == "PaVeBa" or (cls == "PaVeBaGP" and tier != "quick")) else 1,
+                            "batch": 1, "prop": "C07", "tier": tier}, "weight": 100})
     # sparse mid-run active sets whose set-iteration order differs from the sorted order ({8, 1} iterates as 8, 1):
     # the pairing of queried designs and returned observations must not depend on that order
     for cls, ct in (("PaVeBa", None), ("Auer", None), ("VOGP", None), ("PaVeBaGP", "hyperrectangle")):
@@ -253,7 +260,8 @@ def meta(tier):
             src_info(*[getattr(getattr(A.amod(c), c), "evaluating") for c in
                        ("PaVeBa", "PaVeBaGP", "PaVeBaPartialGP", "VOGP", "EpsilonPAL", "Auer", "DecoupledGP")]),
             "bounds": {"tables": "n ≤ 4 choices, q ≤ 4 (incl. q > n), out_dim ≤ 2 (3 thorough), ties allowed",
-                       "runs": "N = 2 designs, 2 steps (VOGP_AD: 3 steps from the root), batch 1"},
+                       "runs": "N = 2 designs, 2 steps (VOGP_AD: 3 steps from the root), batch 1; N = 3 designs, one round (PaVeBa: two) so that "
+                               "the active set changes between elimination and sampling; sparse state S = {8, 1}"},
             "stubs": ["acquisition value tables symbolic", "stub posterior with a fresh symbolic prediction per call",
                       "recording problem returning fresh symbolic observations", "free-oracle region predicates",
                       "Thompson-entropy acquisition values: arbitrary symbolic table (its sampling is outside)"],
